@@ -683,3 +683,42 @@ def require_methods(prog, *items):
                 find_method(prog, ty, meth)
             except NotFound:
                 raise NotFound(f'{ty}::{meth} does not exist in this tree: the obligation is phrased over it')
+
+
+def peel(v):
+    """the value inside single-field private newtypes (`ConnectionStableId(usize)` and the like): what an oracle compares is the wrapped value"""
+    for _ in range(4):
+        if isinstance(v, Agg) and v.variant is None and v.kind not in ('tuple', 'array') and len(v.fields) == 1:
+            v = v.fields[0]
+        else:
+            break
+    return v
+
+
+def callers_closure(ex, target):
+    """(set of raw names of crate functions from which `target` is reachable through crate-local calls, entry points among them = those no other
+    crate function calls).  A closure / async block body counts as called by the function that contains it."""
+    prog = ex.prog
+    edges = {}          # callee raw -> set(caller raw)
+    for raw, fs in prog.fns.items():
+        for f in fs:
+            if not f.blocks:
+                continue
+            m = re.match(r'^(.*)::\{closure#\d+\}$', raw)
+            if m:
+                edges.setdefault(raw, set()).add(m.group(1))
+            for blk in f.blocks.values():
+                for st, _ in blk:
+                    if st and st[0] == 'call' and isinstance(st[2], str):
+                        g = ex.resolve(st[2])
+                        if g is not None and g.blocks:
+                            edges.setdefault(g.raw, set()).add(raw)
+    reach, todo = {target.raw}, [target.raw]
+    while todo:
+        x = todo.pop()
+        for c in edges.get(x, ()):
+            if c not in reach:
+                reach.add(c)
+                todo.append(c)
+    entries = {r for r in reach if not (edges.get(r, set()) - {r})}
+    return reach, entries
